@@ -27,6 +27,9 @@ extern BOX_T G_bx, G_by;                   /* the operands */
 extern ex_t G_pn[BOX_N]; extern int G_ps[BOX_N];   /* ghost point */
 extern ITV_T G_xs0[BOX_N]; extern uint32_t G_fx0;  /* entry copy of x */
 extern int G_satX0, G_satY0, G_emptyX0, G_emptyY0;
+extern ex_t G_qn[BOX_N]; extern int G_qs[BOX_N]; extern int32_t G_t; extern int G_satQ0;   /* a second ghost point (in y) and a time step, for time_elapse_assign */
+#define GQ(k) ns(G_qn[k], G_qs[k])
+#define ELAPSED(k) ns_add(GP(k), ns_scale(GQ(k), (ex_t)G_t))
 #ifdef BOX_ALIAS
 /* aliased-argument variant (check C13): the second operand IS the first one */
 # define G_ys G_xs
@@ -48,6 +51,8 @@ SPEC int box_wf(const BOX_T *b, const ITV_T *seq) {
 }
 SPEC int pt_ok(void) { return ALLK(ns_ok(G_pn[0], G_ps[0]), ns_ok(G_pn[1], G_ps[1])); }
 SPEC int box_sat(const BOX_T *b, const ITV_T *seq) { return !b_marked_empty(b) && ALLK(mem(&seq[0], GP(0)), mem(&seq[1], GP(1))); }
+/* membership of an explicit point (a0, a1) */
+SPEC int box_sat_pt(const BOX_T *b, const ITV_T *seq, ns_t a0, ns_t a1) { return !b_marked_empty(b) && ALLK(mem(&seq[0], a0), mem(&seq[1], a1)); }
 SPEC int box_empty(const BOX_T *b, const ITV_T *seq) { return b_marked_empty(b) || ANYK(is_empty_set(&seq[0]), is_empty_set(&seq[1])); }
 SPEC int itv_universe(const ITV_T *x) { return lo_inf(x) && hi_inf(x); }
 SPEC int itv_bounded(const ITV_T *x) { return !lo_inf(x) && !hi_inf(x); }
